@@ -145,3 +145,41 @@ pub enum TlsConfigError {
         source: rustls::Error,
     },
 }
+
+/// Verification hooks (compiled only with `--cfg n0_computer_iroh_verif`): access to the crate-private TLS name codec, the
+/// certificate verifiers and the raw-public-key certificate resolver, for checks that drive them from outside the crate.
+#[cfg(n0_computer_iroh_verif)]
+#[allow(missing_docs)]
+pub mod verif_hooks {
+    use std::sync::Arc;
+
+    use iroh_base::{EndpointId, SecretKey};
+
+    pub fn name_encode(id: EndpointId) -> String {
+        super::name::encode(id)
+    }
+
+    pub fn name_decode(name: &str) -> Option<EndpointId> {
+        super::name::decode(name)
+    }
+
+    pub fn protocol_versions() -> &'static [&'static rustls::SupportedProtocolVersion] {
+        super::verifier::PROTOCOL_VERSIONS
+    }
+
+    pub fn server_cert_verifier() -> Arc<dyn rustls::client::danger::ServerCertVerifier> {
+        Arc::new(super::verifier::ServerCertificateVerifier)
+    }
+
+    pub fn client_cert_verifier() -> Arc<dyn rustls::server::danger::ClientCertVerifier> {
+        Arc::new(super::verifier::ClientCertificateVerifier)
+    }
+
+    pub fn client_cert_resolver(secret_key: &SecretKey) -> Arc<dyn rustls::client::ResolvesClientCert> {
+        Arc::new(super::resolver::ResolveRawPublicKeyCert::new(secret_key))
+    }
+
+    pub fn server_cert_resolver(secret_key: &SecretKey) -> Arc<dyn rustls::server::ResolvesServerCert> {
+        Arc::new(super::resolver::ResolveRawPublicKeyCert::new(secret_key))
+    }
+}
